@@ -138,6 +138,8 @@ package nsqd
 //@   requires t != nil
 //@   ensures[never-fails] result == nil
 //@   ensures[flag] t.paused == (pause ? 1 : 0)
+//   the topic's message pump is TOLD (a blocking send - the signal is never dropped while the pump is busy), unless the topic is exiting
+//@   ensures[pump-told-or-exiting] sent(t.pauseChan) == old(sent(t.pauseChan)) + 1 || recvd(t.exitChan) == old(recvd(t.exitChan)) + 1
 //@   modifies t.paused, chanstore(int), gTopicPauseCalls, gTopicPauseTopic, gTopicPauseVal, jTopicPauseCalls
 //@   onreturn gTopicPauseCalls := gTopicPauseCalls + 1
 //@   onreturn gTopicPauseTopic := t
